@@ -1129,7 +1129,7 @@ def explore_c17(ctx, res, replay_ops=None):
         t = op.split()
         res.evaluations += 1
         res.dist[t[1]] += 1
-        if t[1] == "rt":
+        if t[1] in ("rt", "client"):
             res.traces_validated += 1
             if im.startswith("same "):
                 res.nontrivial.add(op)
@@ -1137,7 +1137,18 @@ def explore_c17(ctx, res, replay_ops=None):
                 if len(res.samples) < 4:
                     res.sample({"op": op, "impl": im})
             else:
-                res.violation("oracle", "C17: a message did not come back as it was sent: " + im[:600], [op, "# impl: " + im[:4000]])
+                what = "C17: a message did not come back as it was sent: "
+                if t[1] == "client":
+                    what = ("C17: through the CHF's client function (internal/rating, internal/abmf) and a scripted peer, a message was not "
+                            "received as it was sent: ")
+                    m = re.match(r"DIFF (\S+) sent=(.*) got=(.*)$", im)
+                    if m:
+                        a_, b_ = m.group(2), m.group(3)
+                        k = next((j for j in range(min(len(a_), len(b_))) if a_[j] != b_[j]), min(len(a_), len(b_)))
+                        names = list(re.finditer(r"[,{]([A-Za-z][A-Za-z0-9]*)=", a_[:k]))
+                        k0 = names[-1].start(1) if names else 0
+                        what += "%s field %s… received as %s… " % (m.group(1), a_[k0:k0 + 60], b_[k0:k0 + 60])
+                res.violation("oracle", what + im[:600], [op, "# impl: " + im[:4000]])
         elif t[1] == "prim":
             if im != mo:
                 res.disagreements += 1
